@@ -20,7 +20,10 @@ THEOREMS = [
 MANIFEST = {
     "level": "other",
     "technique": "random grounding histories (shared target / ground_all / shared prepared database) on generated programs, "
-                 "each compared with the Lean specification Sem, whose per-query independence is a Lean theorem",
+                 "each compared with the Lean specification Sem, whose per-query independence is a Lean theorem; on ground "
+                 "programs without recursion the engine and its table across ground() calls are modelled "
+                 "(ProbLogModel/GroundAcyclic.lean: exact equality of ground program and table) and history independence is "
+                 "a Lean theorem (C01Ground.C08_ground_history_independent, Ground_table_inv)",
     "text": "Partial: the history quantifier is explored, not proved; the engine's tabling across ground() calls is not "
             "modelled. The specification side (a query's value does not depend on which other queries are asked) is the "
             "Lean theorem listed in the obligation list.",
@@ -52,6 +55,13 @@ def run(ctx):
     N[0] = ctx.budget(6, 24)
     ctx.rule = ("generated programs x seeded grounding histories (shared target, ground_all, shared prepared database); "
                 "non-trivial = at least one query instance and more than one world")
-    return cfgprop.run(ctx, MODULE, THEOREMS, variants, nq=50, nt=700, level="other",
-                       explanation="Histories are explored, not proved; every history's answers are compared with the Lean "
-                                   "specification value.")
+    # ground programs without recursion: the engine with its table across ground() calls is MODELLED (exact
+    # correspondence of ground program and table) and history independence is a theorem (C08_ground_history_independent)
+    import ground_util
+    gerr = ground_util.guarded(ctx, "history", 200, 6000)
+    rc = cfgprop.run(ctx, MODULE, THEOREMS, variants, nq=50, nt=700, level="other",
+                     explanation="Histories are explored, not proved, on general programs; every history's answers are compared "
+                                 "with the Lean specification value. On ground programs without recursion the engine and its "
+                                 "table are modelled (lean/ProbLogModel/GroundAcyclic.lean, exact correspondence) and history "
+                                 "independence is proved (ProbLogProofs.C01Ground).")
+    return ground_util.after(rc, gerr)
